@@ -228,6 +228,7 @@ impl PartialOrd for Constants {
         eq_scan(other@, it.seq(), it.index@, order),
         it.index@ == it.seq().len() ==> cmp_view(self@, other@) == Some(order),
 //@ before 0 `match other.constants.get(ls) {`
+    broadcast use {ordering_cmp::axiom_ordering_obeys_partial_cmp, ordering_cmp::axiom_ordering_partial_cmp};
     let ghost order0 = order;
 //@ before 2 `return None;`
     proof { lemma_eq_scan_none(self@, other@, it.seq(), it.index@, order0); }
